@@ -1,6 +1,7 @@
 import Driver.Util
 import BtcModel.Model.Tree
 import BtcModel.Model.Watchdog
+import Driver.Canister
 
 open Btc
 
@@ -9,9 +10,93 @@ namespace Driver
 structure DState where
   wdCfg : Watchdog.Cfg := ⟨0, 0, 0⟩
   wdStore : Watchdog.Store := ⟨[], none⟩
+  /-- canister model state -/
+  st : Option State := none
+  /-- ghost: the blocks ingested so far (the stable chain below the anchor), genesis first -/
+  ghost : List Block := []
 
 def statusCode : Watchdog.Status → Nat
   | .notEnoughData => 0 | .ok => 1 | .ahead => 2 | .behind => 3
+
+/-- full chain (genesis first) ending at the tree block with hash `tip` -/
+def fullChainTo (ghost : List Block) (s : State) (tip : Nat) : Option (List Block) :=
+  (Tree.chainWithTip CBlock.hash tip s.unstable.tree).map (fun p => ghost ++ p.1.map (·.blk))
+
+def canonUtxos (l : List Utxo) : String := showUtxoList (Spec.canonical l)
+
+/-- canister ops (`c ...`) -/
+def stepCanister (d : DState) (ws : List String) : DState × String :=
+  match ws, d.st with
+  | ["init", net, thr, blk], _ =>
+    match State.new thr.toNat! (parseNet net) (parseBlock blk) with
+    | some s => ({ d with st := some s, ghost := [] }, "-")
+    | none => (d, "trap")
+  | ["push", blk], some s =>
+    match s.unstable.push s.utxos (parseBlock blk) with
+    | .ok u => ({ d with st := some { s with unstable := u } }, "ok")
+    | .doesNotExtend => (d, "noextend")
+    | .trap _ => (d, "trap")
+  | ["ingest", budget], some s =>
+    let finish (s' : State) (o : String) : DState × String :=
+      -- ghost: the roots that were popped, in order
+      let popped := match Tree.chainWithTip CBlock.hash s'.unstable.tree.root.hash s.unstable.tree with
+        | some (p, _) => (p.dropLast).map (·.blk)
+        | none => []
+      ({ d with st := some s', ghost := d.ghost ++ popped }, o)
+    match s.ingestStable testnetBound budget.toNat! with
+    | .trap _ => (d, "trap")
+    | .paused s' => finish s' "paused"
+    | .done s' true => finish s' "done1"
+    | .done s' false => finish s' "done0"
+  | ["q", "info"], some s => (d, showInfo s.blockchainInfo)
+  | ["q", "utxos", tok, filter, lim], some s =>
+    (d, showUtxosResult (s.getUtxos (parseAddrArg tok) (parseFilter filter) lim.toNat!))
+  | ["q", "utxosall", tok, filter, lim], some s =>
+    (d, utxosAll s (parseAddrArg tok) (parseFilter filter) lim.toNat!)
+  | ["q", "balance", tok, c], some s =>
+    (d, showBalance (s.getBalance (parseAddrArg tok) ((optNat c).getD 0)))
+  | ["q", "headers", a, b], some s =>
+    (d, showHeaders (s.getBlockHeaders Btc.Gen.maxBlockHeadersPerResponse a.toNat! (optNat b)))
+  | ["q", "fees"], some s =>
+    match s.feePercentiles Btc.Gen.numTransactions with
+    | none => (d, "trap")
+    | some (s', p) => ({ d with st := some s' }, showNatList p)
+  | ["snap"], some s => (d, snapshot s)
+  | ["digest"], some s => (d, digest s)
+  -- specification lines: the model column is the specification itself
+  | ["ledgerat", addr, tip], some s =>
+    -- C01: the ledger state for `addr` at the tip the implementation named
+    match fullChainTo d.ghost s (hexToNat tip) with
+    | none => (d, "unknown-tip")
+    | some chain => (d, s!"{chain.length - 1} {canonUtxos (Spec.ledgerFor (strBytes addr) chain)} desc=1 nodup=1")
+  | ["bestat", addr], some s =>
+    -- C02: everything is answered for the last block of the heaviest branch
+    let best := Spec.bestPath CBlock.diff s.unstable.tree
+    match best.getLast? with
+    | none => (d, "no-best")
+    | some tip =>
+      let chain := d.ghost ++ best.map (·.blk)
+      let bal := ((Spec.ledgerFor (strBytes addr) chain).map (·.value)).foldl (· + ·) 0
+      let h := chain.length - 1
+      (d, s!"info={h}/{hash64 tip.hash}/{tip.blk.time}/{tip.blk.diff} utxos={h}/{hash64 tip.hash} headers={h}/{tip.blk.header} balance={bal}")
+  | ["sumat", addr, c], some s =>
+    -- C05: the balance for the same request (compared with the sum of the reported UTXOs)
+    match s.getBalance (.ok (strBytes addr)) ((optNat c).getD 0) with
+    | .ok v => (d, toString v)
+    | other => (d, showBalance other)
+  | ["cutat", addr, c], some s =>
+    -- C04: the block named by min_confirmations = c and the ledger state there
+    let best := Spec.bestPath CBlock.diff s.unstable.tree
+    let cN := c.toNat!
+    if cN > best.length then (d, s!"err MinConfirmationsTooLarge {cN} {best.length}")
+    else
+      let pre := Spec.buriedPrefix CBlock.hash s.unstable.tree cN best 0
+      match pre.getLast? with
+      | none => (d, "no-block-qualifies")
+      | some tip =>
+        let chain := d.ghost ++ pre.map (·.blk)
+        (d, s!"{chain.length - 1} {hash64 tip.hash} {canonUtxos (Spec.ledgerFor (strBytes addr) chain)}")
+  | _, _ => (d, "bad-op")
 
 /-- One protocol line → new state and the model's observation. -/
 def step (st : DState) (ws : List String) : DState × String :=
@@ -24,6 +109,7 @@ def step (st : DState) (ws : List String) : DState × String :=
     let d := store.decision st.wdCfg
     ({ st with wdStore := store },
       s!"{statusCode d.1} {showOptNat d.2.1} {showOptInt d.2.2.1} {showOptBool d.2.2.2}")
+  | "c" :: rest => stepCanister st rest
   | _ => (st, "bad-op")
 
 partial def loop (h : IO.FS.Stream) (out : IO.FS.Stream) (st : DState) : IO Unit := do
